@@ -130,6 +130,8 @@ Ltac settle :=
   | H : true = false -> _ |- _ => clear H
   | H : false = true -> _ |- _ => clear H
   | H : ?t = EmptyString |- _ => subst t
+  | H : false = true |- _ => discriminate H
+  | H : true = false |- _ => discriminate H
   end.
 
 Ltac item_core :=
@@ -299,7 +301,7 @@ Proof. repeat constructor; vm_compute; discriminate. Qed.
 
 Lemma model_counts :
   List.length model = 22 /\ List.length (List.concat (map fn_items model)) = 52 /\
-  List.length (List.concat (map fn_pre model)) = 34.
+  List.length (List.concat (map fn_pre model)) = 36.
 Proof. vm_compute. repeat split. Qed.
 
 (* prepareUpgrade's "ask the storage for the deployed revision" with
